@@ -87,7 +87,17 @@ func (p *poller) addConn(c *Conn) error {
 		p.g.onUDPListen(c)
 	}
 	p.g.connsUnix[fd] = c
-	err := p.addRead(fd)
+	// The open handler may already have written and left a backlog; its
+	// attempt to set the writing event failed because the fd was not
+	// registered yet, so register it with the writing event here.
+	var err error
+	c.mux.Lock()
+	if c.isWAdded {
+		err = p.addReadWrite(fd)
+	} else {
+		err = p.addRead(fd)
+	}
+	c.mux.Unlock()
 	if err != nil {
 		p.g.connsUnix[fd] = nil
 		_ = c.closeWithError(err)
